@@ -804,6 +804,12 @@ def s_ascii_pred(e, st, callee, args, dty):
     }
     if m == "is_control" and w == 32:
         return Bool(z3.Or(z3.ULT(t, c(0x20)), r(0x7F, 0x9F)))
+    if m == "is_whitespace" and w == 32:
+        # Unicode White_Space
+        return Bool(z3.Or(r(0x09, 0x0D), t == c(0x20), t == c(0x85), t == c(0xA0), t == c(0x1680), r(0x2000, 0x200A),
+                          t == c(0x2028), t == c(0x2029), t == c(0x202F), t == c(0x205F), t == c(0x3000)))
+    if m == "is_alphabetic" or m == "is_alphanumeric" or m == "is_numeric":
+        return NotImplemented
     if m in table:
         return Bool(table[m])
     return NotImplemented
@@ -815,7 +821,7 @@ STR = {
     r"^(core::str::|std::str::)?from_utf8$": s_from_utf8,
     r"^(core::str::|std::str::)?(<impl str>::)?bytes$": s_bytes,
     r"^<(std::str::)?Bytes(<'_>)? as (std::iter::)?Iterator>::(any|all)$": s_bytes_any_all,
-    r"^(core::num::|core::char::methods::|char::methods::)?(<impl (u8|char)>::|u8::|char::)?is_(ascii(_[a-z]+)?|control)$": s_ascii_pred,
+    r"^(core::num::|core::char::methods::|char::methods::)?(<impl (u8|char)>::|u8::|char::)?is_(ascii(_[a-z]+)?|control|whitespace)$": s_ascii_pred,
     r"^(core::str::|std::str::)?(<impl str>::)?as_bytes$|^(std::string::)?String::as_bytes$|^(std::string::)?String::into_bytes$|^(std::ffi::)?OsStr::as_bytes$|^<.* as (std::os::unix::ffi::)?OsStrExt>::as_bytes$|^(std::string::)?String::into_boxed_str$": s_str_identity,
     r"^(std::ffi::)?(OsString|OsStr|std::ffi::OsStr)::to_string_lossy$|^std::ffi::os_str::<impl .*>::to_string_lossy$|^(std::path::)?Path::to_string_lossy$": s_to_string_lossy,
     r"^<.*(Cow<'_, str>|Cow<str>|String|OsString|PathBuf).* as (std::ops::)?Deref>::deref$": s_str_ref_identity,
